@@ -866,7 +866,39 @@ func shapeWorld(seed int64, id int, shape string, width, depth int, rootOK bool)
 	far := int(ucan.Now()) + 1000000
 	owner := cast.Ed("L0")
 	with := owner.DID.String()
+	selfbag := shape == "selfbag"
+	if selfbag {
+		// the invoker acts on ITS OWN resource (self-issued: no proof needed) but carries a layered bag of delegations
+		// about that resource whose chains all fail
+		with = cast.Ed(fmt.Sprintf("L%d", depth)).DID.String()
+		shape, rootOK = "layered", false
+	}
 	w := &World{ID: id, Kind: shape, Cast: cast, Can: "store/add", Inv: "inv", Ctx: baseCtx(service)}
+	if shape == "attest-siblings" {
+		// one login by an account without a key, `width` attestations of it issued by OTHER key-less DIDs (each of which
+		// would itself need a session) and one genuine attestation by the authority, last
+		agent := cast.Ed("agent")
+		acct := cast.Absentee("acct", "did:mailto:example.com:alice")
+		inv := &TokSpec{Name: "inv", Issuer: agent, Audience: service, Exp: &far,
+			Caps: []CapSpec{{Can: "store/add", With: acct.DID.String(), Nb: Cav{}}}}
+		w.Specs = append(w.Specs, &TokSpec{Name: "login", Issuer: acct, Audience: agent, Exp: &far,
+			Caps: []CapSpec{{Can: "*", With: acct.DID.String(), Nb: Cav{}}}})
+		inv.Proofs = append(inv.Proofs, ProofRef{Tok: "login", Inline: true})
+		for i := 0; i < width; i++ {
+			other := cast.Absentee(fmt.Sprintf("other%d", i), fmt.Sprintf("did:mailto:example.com:other%d", i))
+			n := fmt.Sprintf("fakeatt%d", i)
+			w.Specs = append(w.Specs, &TokSpec{Name: n, Issuer: other, Audience: agent, Exp: &far, Nonce: n,
+				Caps: []CapSpec{{Can: "ucan/attest", With: service.DID.String(), Nb: attestNb{w, "login"}}}})
+			inv.Proofs = append(inv.Proofs, ProofRef{Tok: n, Inline: true})
+		}
+		if rootOK {
+			w.Specs = append(w.Specs, &TokSpec{Name: "att", Issuer: service, Audience: agent, Exp: &far,
+				Caps: []CapSpec{{Can: "ucan/attest", With: service.DID.String(), Nb: attestNb{w, "login"}}}})
+			inv.Proofs = append(inv.Proofs, ProofRef{Tok: "att", Inline: true})
+		}
+		w.Specs = append(w.Specs, inv)
+		return w
+	}
 	if shape == "logins" {
 		// `width` sibling logins: accounts (did:mailto, no key) delegate `*` to the agent, the service attests each of them;
 		// every account proof has to be matched with its session among the sibling attestations
@@ -983,6 +1015,12 @@ func init() {
 		for k := 1; k <= 6; k++ {
 			shapes = append(shapes, sh{"logins", k, 1})
 			shapes = append(shapes, sh{"logins-web", k, 1})
+			if k <= 5 {
+				shapes = append(shapes, sh{"attest-siblings", k, 1})
+			}
+			if k <= 4 {
+				shapes = append(shapes, sh{"selfbag", 3, k})
+			}
 		}
 		for _, s := range shapes {
 			for _, rootOK := range []bool{true, false} {
